@@ -57,3 +57,24 @@ Theorem lz4_decompress_never_faults : forall s cap f,
   bytes s -> Lz4Model.decompress s cap <> Fault f.
 Proof. exact lz4_decompress_never_faults_thm. Qed.
 Print Assumptions lz4_decompress_never_faults.
+
+(** Every stream carquet's Snappy compressor produces - whatever the match finder does (every hash
+    function, table size, 16-bit position aliasing beyond 64 KiB) - is a valid raw Snappy block
+    denoting the input: the decoder derived from the format document recovers the input. *)
+Theorem snappy_compress_valid : forall (St : Type) (look : St -> nat -> nat * St) (ins : St -> nat -> St)
+    (st0 : St) (x : list N),
+  bytes x -> nlen x < 2 ^ 32 ->
+  exists out, SnappyModel.compress_with look ins st0 x = Ok out /\ SnappySpec.spec_decode out = Some x.
+Proof. exact snappy_compress_spec_decode_thm. Qed.
+Print Assumptions snappy_compress_valid.
+
+(** Every stream carquet's LZ4 compressor produces is a valid LZ4 block denoting the input and
+    respects the end-of-block rules (last 5 bytes literals, last match starts at least 12 bytes
+    before the end), for every match finder. *)
+Theorem lz4_compress_valid : forall (St : Type) (look : St -> nat -> nat * St) (ins : St -> nat -> St)
+    (st0 : St) (x : list N) (cap : N),
+  bytes x -> Lz4Model.compress_bound (nlen x) <= cap ->
+  exists out, Lz4Model.compress_with look ins st0 x cap = Ok out /\ ValidLz4Output out x /\
+              Lz4Spec.spec_decode out = Some x.
+Proof. exact lz4_compress_spec_decode_thm. Qed.
+Print Assumptions lz4_compress_valid.
